@@ -31,7 +31,7 @@ def _blob(rng, thorough: bool) -> tuple[bytes | None, str]:  # noqa: ANN001
 def gen_batch(rng, thorough: bool, max_records: int) -> tuple[dict, dict]:  # noqa: ANN001
     """Returns (neutral well-formed batch with absolute offsets/timestamps in '_abs', cell description)."""
     n = rng.choice((1, 1, 2, 3, 5, 8, 20, rng.randint(1, max_records)))
-    order = rng.choice(("ascending", "gaps", "descending", "arbitrary", "equal"))
+    order = rng.choice(("ascending", "gaps", "descending", "arbitrary", "equal", "boundary"))
     base = rng.choice((0, 1, rng.randint(0, 2**40), 2**62, 2**63 - 1 - 2**31 if order != "descending" else 2**63 - 1, -(2**63) + 2**31 + 5, rng.randint(-(2**62), 2**62)))
     if order == "ascending":
         offs = [base + k for k in range(n)]
@@ -44,11 +44,16 @@ def gen_batch(rng, thorough: bool, max_records: int) -> tuple[dict, dict]:  # no
         offs = [base - k * rng.randint(1, 1000) for k in range(n)]
     elif order == "equal":
         offs = [base] * n
+    elif order == "boundary":
+        # deltas at the byte-length boundaries of the zig-zag varint (and the int32 limits)
+        edge = [s_ * (1 << p_) + d_ for p_ in (6, 13, 20, 27) for s_ in (1, -1) for d_ in (-1, 0, 1)] + [2**31 - 1, -(2**31), 0, 1, -1]
+        base = rng.choice((0, 2**40, -(2**40)))
+        offs = [base] + [base + rng.choice(edge) for _ in range(n - 1)]
     else:
         offs = [base] + [base + rng.randint(-(2**31), 2**31 - 1) for _ in range(n - 1)]
     offs = [min(max(o, -(2**63)), 2**63 - 1) for o in offs]
     offs = [o if -(2**31) <= o - offs[0] <= 2**31 - 1 else offs[0] for o in offs]
-    tkind = rng.choice(("near_epoch", "modern", "year9999", "equal", "out_of_order", "whole_seconds"))
+    tkind = rng.choice(("near_epoch", "modern", "year9999", "equal", "out_of_order", "whole_seconds", "boundary"))
     if tkind == "near_epoch":
         ts = [rng.randint(0, 5000) for _ in range(n)]
     elif tkind == "modern":
@@ -58,6 +63,11 @@ def gen_batch(rng, thorough: bool, max_records: int) -> tuple[dict, dict]:  # no
         ts = [gen.DT_MAX - rng.randint(0, 10**6) for _ in range(n)]
     elif tkind == "equal":
         ts = [rng.choice((0, 1, 999, 1001, 1503229838908, gen.DT_MAX))] * n
+    elif tkind == "boundary":
+        # timestamp deltas at the byte-length boundaries of the zig-zag varlong
+        t0 = 1 << 45
+        edge = [s_ * (1 << p_) + d_ for p_ in (6, 13, 20, 27, 34, 41) for s_ in (1, -1) for d_ in (-1, 0, 1)]
+        ts = [t0] + [t0 + rng.choice(edge) for _ in range(n - 1)]
     elif tkind == "whole_seconds":
         ts = [1000 * rng.randint(0, gen.DT_MAX // 1000) for _ in range(n)]
     else:
